@@ -534,3 +534,7 @@ func ifaceMethods(c *core.Ctx, rule, ifaceSpec, glob string) []*types.Func {
 	}
 	return out
 }
+
+func mapOf(f *types.Func) map[*types.Func]bool { return map[*types.Func]bool{f: true} }
+
+func enclName(f *ssa.Function) string { return ens.SSAFuncName(topFunc(f)) }
